@@ -89,7 +89,7 @@ def model_stage(tier: str) -> dict:
         vr = run_tlc("MC_HMS", "HMS_variants.cfg", d / "variants", workers=8, timeout=2400, heap="4g", coverage=True)
         if not vr.ok and not vr.violated:
             raise MachineryError("protocol-variants run failed:\n" + "\n".join(vr.out.splitlines()[-20:]))
-        vcov = {a: list(vr.coverage.get(a, (0, 0))) for a in ("LscFirst", "SelfStopSilently")}
+        vcov = {a: list(vr.coverage.get(a, (0, 0))) for a in ("LscFirst", "SelfStopSilently", "SproutAbandoned")}
         variants = {"cfg": "HMS_variants.cfg", "distinct_states": vr.distinct, "violated": vr.violated, "wall_s": round(vr.wall_s, 1),
                     "taken": vcov}
         r.violated.extend(vr.violated)
